@@ -1,5 +1,6 @@
 // C11 (static directives) — appended to filter/targets.rs: real Targets / DirectiveSet<StaticDirective> / Ord for StaticDirective.
 const CAT: [&str; 5] = ["a", "ab", "abc", "b", ""];      // directive targets; index 5 = no target (the default directive)
+const ND: usize = 2;                                       // directives per set (3 exhausted 40+ GB in CBMC)
 const QRY: [&str; 6] = ["a", "ab", "abc", "abcd", "b", "c"];
 fn prefix_len(d: usize, q: &str) -> Option<isize> {
     // Some(specificity) if directive target d matches query q; the default directive matches everything, least specific
@@ -7,10 +8,10 @@ fn prefix_len(d: usize, q: &str) -> Option<isize> {
     let t = CAT[d];
     if q.len() >= t.len() && &q.as_bytes()[..t.len()] == t.as_bytes() { Some(t.len() as isize) } else { None }
 }
-fn build(d: &[(usize, u8); 3]) -> Targets {
+fn build(d: &[(usize, u8); ND]) -> Targets {
     let mut t = Targets::new();
     let mut i = 0;
-    while i < 3 {
+    while i < ND {
         let lf = vfilter_of(d[i].1).unwrap();
         t = if d[i].0 == 5 { t.with_default(lf) } else { t.with_target(CAT[d[i].0], lf) };
         i += 1;
@@ -19,13 +20,13 @@ fn build(d: &[(usize, u8); 3]) -> Targets {
 }
 /// the statement's rule: the most specific matching directive (longest matching target prefix) decides; a later
 /// directive with the same target replaces the earlier one; nothing matches => disabled
-fn oracle(d: &[(usize, u8); 3], q: &str, lvl: u8) -> bool {
+fn oracle(d: &[(usize, u8); ND], q: &str, lvl: u8) -> bool {
     let mut best: Option<(isize, u8)> = None;
     let mut i = 0;
-    while i < 3 {
+    while i < ND {
         // skip if a later directive has the same target (it replaced this one)
         let mut replaced = false; let mut j = i + 1;
-        while j < 3 { if d[j].0 == d[i].0 { replaced = true; } j += 1; }
+        while j < ND { if d[j].0 == d[i].0 { replaced = true; } j += 1; }
         if !replaced {
             if let Some(s) = prefix_len(d[i].0, q) {
                 match best { Some((bs, _)) if bs >= s => {}, _ => best = Some((s, d[i].1)) }
@@ -35,13 +36,13 @@ fn oracle(d: &[(usize, u8); 3], q: &str, lvl: u8) -> bool {
     }
     match best { Some((_, l)) => lvl <= l, None => false }
 }
-fn any_dirs() -> [(usize, u8); 3] {
-    let d: [(usize, u8); 3] = [(nd(), nd()), (nd(), nd()), (nd(), nd())];
-    let mut i = 0; while i < 3 { kani::assume(d[i].0 <= 5 && d[i].1 <= 5); i += 1; }
+fn any_dirs() -> [(usize, u8); ND] {
+    let d: [(usize, u8); ND] = [(nd(), nd()), (nd(), nd())];
+    let mut i = 0; while i < ND { kani::assume(d[i].0 <= 5 && d[i].1 <= 5); i += 1; }
     d
 }
 
-// BOUND: 3 directives over targets {a, ab, abc, b, "", default} x 6 levels; queries {a, ab, abc, abcd, b, c} x 5 levels
+// BOUND: 2 directives over targets {a, ab, abc, b, "", default} x 6 levels; queries {a, ab, abc, abcd, b, c} x 5 levels
 #[kani::proof]
 #[kani::unwind(8)]
 #[kani::stub(core::fmt::Formatter::pad, pad_stub)]
@@ -53,7 +54,7 @@ fn c11_most_specific_directive_wins_bounded() {
     assert!(t.would_enable(QRY[qi], &level) == oracle(&d, QRY[qi], lvl), "C11.would_enable.most_specific_matching_directive_decides_none_means_disabled");
 }
 
-// BOUND: 3 directives as above
+// BOUND: 2 directives as above
 #[kani::proof]
 #[kani::unwind(8)]
 #[kani::stub(core::fmt::Formatter::pad, pad_stub)]
@@ -71,7 +72,7 @@ fn c11_directive_set_sorted_unique_and_max_level_bounded() {
     }
     // number of entries = number of distinct targets added
     let mut distinct = 0; let mut i = 0;
-    while i < 3 { let mut seen = false; let mut j = 0; while j < i { if d[j].0 == d[i].0 { seen = true; } j += 1; } if !seen { distinct += 1; } i += 1; }
+    while i < ND { let mut seen = false; let mut j = 0; while j < i { if d[j].0 == d[i].0 { seen = true; } j += 1; } if !seen { distinct += 1; } i += 1; }
     assert!(v.len() == distinct, "C11.DirectiveSet.equal_key_is_replaced_not_duplicated");
     // the published hint bounds every directive present (C08: Targets' max_level_hint is sound)
     let hint = vrank(Some(t.0.max_level));
